@@ -217,6 +217,14 @@ impl<'a> Frame<'a> {
             };
 
             if payload_len > Self::MAX_PARSE_PAYLOAD_ALLOWED {
+                if matches!(kind, FrameKind::Exercise(_)) {
+                    // Reserved frames carry no meaning: skipped whatever their length
+                    return match bytes_reader.get_bytes(payload_len) {
+                        Some(_) => Err(ParseError::UnknownFrame),
+                        None => Ok(None),
+                    };
+                }
+
                 return Err(ParseError::PayloadTooBig);
             }
 
@@ -275,6 +283,12 @@ impl<'a> Frame<'a> {
                 .into_inner() as usize;
 
             if payload_len > Self::MAX_PARSE_PAYLOAD_ALLOWED {
+                if matches!(kind, FrameKind::Exercise(_)) {
+                    // Reserved frames carry no meaning: skipped whatever their length
+                    Self::skip_payload_async(reader, payload_len as u64).await?;
+                    return Err(IoReadError::Parse(ParseError::UnknownFrame));
+                }
+
                 return Err(IoReadError::Parse(ParseError::PayloadTooBig));
             }
 
